@@ -55,6 +55,8 @@ def run(tier, seed, t0):
     jobs.append(Job("memcheck-iokinds", "drv_c16", "vg", "nayuki-avx", ["--mode", "iokinds", "--reps", 3 if thorough else 1, "--seed", seed], tool="memcheck", timeout=7200))
     for be in thread_bes:
         jobs.append(Job("asan-threads-%s" % be, "drv_c16", "asan", be, ["--mode", "threads", "--count", 50, "--burst", 10, "--seed", seed], timeout=3600, weight=4))
+    for be in vbuild.BACKENDS:   # native speed: stack/TLS recycling as the C library really does it
+        jobs.append(Job("optim-threads-%s" % be, "drv_c16", "optim", be, ["--mode", "threads", "--count", 30, "--burst", 10, "--seed", seed], timeout=3600, weight=4))
     for be in (["spqlios-fma", "spqlios-avx", "nayuki-avx"] if thorough else ["spqlios-fma"]):
         jobs.append(Job("memcheck-threads-%s" % be, "drv_c16", "vg", be, ["--mode", "threads", "--count", 12, "--burst", 4, "--seed", seed], tool="memcheck", timeout=7200, weight=2))
 
